@@ -799,18 +799,19 @@ type ecSummary struct {
 }
 
 type ecEngine struct {
-	r          *ecRoles
-	sums       map[*ssa.Function]*ecSummary
-	inprog     map[*ssa.Function]bool
-	fieldW     map[*types.Var][]core.WriteSite
-	structW    map[*types.Named][]core.WriteSite
-	fieldMemo  map[*types.Var]ecSet
-	fieldBusy  map[*types.Var]bool
-	predFns    map[string]*ssa.Function
-	predMemo   map[string][2]bool
-	mkIface    map[*types.Package][]*ssa.MakeInterface
-	factsMemo  map[*ssa.BasicBlock][]ecFact
-	inventoryd bool
+	r           *ecRoles
+	sums        map[*ssa.Function]*ecSummary
+	inprog      map[*ssa.Function]bool
+	fieldW      map[*types.Var][]core.WriteSite
+	structW     map[*types.Named][]core.WriteSite
+	fieldMemo   map[*types.Var]ecSet
+	fieldBusy   map[*types.Var]bool
+	predFns     map[string]*ssa.Function
+	predMemo    map[string][2]bool
+	mkIface     map[*types.Package][]*ssa.MakeInterface
+	factsMemo   map[*ssa.BasicBlock][]ecFact
+	inventoryd  bool
+	inlineDepth int
 }
 
 var ecEngineCache = map[*core.Ctx]*ecEngine{}
@@ -922,9 +923,36 @@ func (e *ecEngine) decompose(cond ssa.Value, pos bool, out *[]ecFact) {
 			return
 		}
 	case *ssa.Call:
-		if f := x.Call.StaticCallee(); e.isPredicate(f) {
+		f := x.Call.StaticCallee()
+		if e.isPredicate(f) {
 			*out = append(*out, ecFact{Kind: "pred", V: ecUnwrapIface(x.Call.Args[0]), Pos: pos, Pred: f})
 			return
+		}
+		// a one-block boolean helper of the repository (`func (d *T) tooMany() bool { return d.min() > d.max() }`):
+		// the condition it returns holds/fails at the call. Facts about SSA values are then in the helper's value
+		// space (they never match caller values); comparisons over struct fields and accessor calls keep their meaning.
+		if f != nil && f.Blocks != nil && len(f.Blocks) == 1 && core.InRepo(core.FuncPkg(f)) && e.inlineDepth < 3 {
+			if rets := ecReturns(f); len(rets) == 1 && len(rets[0].Results) == 1 {
+				if b, ok := rets[0].Results[0].Type().Underlying().(*types.Basic); ok && b.Info()&types.IsBoolean != 0 {
+					if _, isConst := rets[0].Results[0].(*ssa.Const); !isConst {
+						var sub []ecFact
+						e.inlineDepth++
+						e.decompose(rets[0].Results[0], pos, &sub)
+						e.inlineDepth--
+						for _, ft := range sub {
+							if prm, ok := ft.V.(*ssa.Parameter); ok && prm.Parent() == f {
+								for i, q := range f.Params {
+									if q == prm && i < len(x.Call.Args) {
+										ft.V = ecUnwrapIface(x.Call.Args[i])
+									}
+								}
+							}
+							*out = append(*out, ft)
+						}
+						return
+					}
+				}
+			}
 		}
 	}
 	*out = append(*out, ecFact{Kind: "bool", V: cond, Pos: pos})
@@ -1474,7 +1502,7 @@ func (e *ecEngine) summary(fn *ssa.Function) *ecSummary {
 				if i >= len(rt.Results) {
 					continue
 				}
-				cls := e.condition(e.classAt(rt.Results[i], ecPointOf(rt)), e.factsAt(ecPointOf(rt)))
+				cls := e.condition(fn, e.classAt(rt.Results[i], ecPointOf(rt)), e.factsAt(ecPointOf(rt)))
 				r.Cls[i] = cls
 				s.Res[i].addAll(cls)
 			}
@@ -1490,11 +1518,11 @@ func ecPassThrough(v ssa.Value) string { return "same-as:" + ecUnwrapIface(v).Na
 
 // condition marks the NIL/EOF elements of a return that is dominated by a `param == nil` / `param == io.EOF`
 // edge as conditional on that parameter.
-func (e *ecEngine) condition(cls ecSet, facts []ecFact) ecSet {
+func (e *ecEngine) condition(fn *ssa.Function, cls ecSet, facts []ecFact) ecSet {
 	nilP, eofP := 0, 0
 	for _, f := range facts {
 		prm, ok := f.V.(*ssa.Parameter)
-		if !ok || !f.Pos {
+		if !ok || !f.Pos || prm.Parent() != fn {
 			continue
 		}
 		for i, q := range prm.Parent().Params {
